@@ -140,15 +140,16 @@ PROPS["C15"] = dict(level="proof", allowed_axioms=FLOCQ_AXIOMS,
     level_note="The Go memory model / scheduler cannot be exhibited by an executable Gallina model: absence of data races in the real runtime is exploration (race detector), not proof.",
     technique="Coq theorems on the cache / schedule logic + snapshot correspondence + Go race detector runs")
 PROPS["C18"] = dict(level="proof",
-    rule="ALL histories of length 0..7 over {Reload succeeding, Reload failing, Instance+Render of an existing name, of a missing name, GetTemplate} x 2 hot-reload modes x 2 outcomes of the first build (390 624 histories, exhaustive in both tiers) against a fake template manager; non-trivial = the history contains at least one operation; plus concurrent Reload / Instance+Render under the Go race detector",
-    streams=[dict(name="reload", family="reload", quick=390624, thorough=390624, nontrivial=r" ", exhaustive_always=True)],
+    rule="ALL histories of length 0..7 over {Reload succeeding, Reload failing, Instance+Render of an existing name, of a missing name, GetTemplate} x 2 hot-reload modes x 2 outcomes of the first build (390 624 histories, exhaustive in both tiers) against a fake template manager; non-trivial = the history contains at least one operation; plus deterministic SCHEDULES of 1-7 concurrent Reload / request threads in which a Reload is held inside its builder while other threads run (requests and other Reloads' stores fall inside a build; stores in the opposite order to builds; Reloads never started or never finished) against the atomic-step model; plus concurrent Reload / Instance+Render under the Go race detector with a real-time freshness oracle",
+    streams=[dict(name="reload", family="reload", quick=390624, thorough=390624, nontrivial=r" ", exhaustive_always=True),
+             dict(name="reloadconc", family="reloadconc", quick=4000, thorough=200000, nontrivial=r"rok|served|notfound")],
     race=dict(quick=40, thorough=1000),
     trusted_base=["the Go race detector for the concurrency clause", "the builder (types.Factory) is an oracle"],
     modelled=["render.go (NewHTMLRender, Reload, Instance, GetTemplate, Render, WriteContentType)"],
     assumptions=[],
-    level_text="Theorems by induction over operation histories of the renderer state machine: without hot reload every request is answered from the last successful build of the history so far (a failed Reload keeps the previous set, none yet = ErrNoTemplateSet), with hot reload every request is answered from its own build or surfaces its own build error with nothing written, Reload answers its own outcome, the content type is set only on an empty header; tied to the code by running ALL histories up to length 7 in both modes; concurrent Reload/requests run under the race detector.",
-    level_note="Race freedom of Reload vs requests is exploration (race detector) — the schedule clause is partial.",
-    technique="Coq induction over histories + exhaustive history correspondence + Go race detector runs")
+    level_text="Theorems by induction over operation histories of the renderer state machine: without hot reload every request is answered from the last successful build of the history so far (a failed Reload keeps the previous set, none yet = ErrNoTemplateSet), with hot reload every request is answered from its own build or surfaces its own build error with nothing written, Reload answers its own outcome, the content type is set only on an empty header; tied to the code by running ALL histories up to length 7 in both modes.  Concurrency: Reload and a request are split into their atomic steps (build, store under the lock / load under the read lock, look-up) and EVERY schedule of any number of threads is proved linearizable with respect to the sequential model, in real-time order (a request that starts after a successful Reload returned is served from that build or a later one; the field always holds the last successful build of the linearized history); tied to the code by deterministic schedules that hold Reloads inside their builder, and by runs under the race detector.",
+    level_note="That the store and the load are atomic with respect to each other (sync.RWMutex, the Go memory model) is exploration (race detector) — that part of the schedule clause is partial; the schedules the harness can force are those with the build as the only preemption point.",
+    technique="Coq induction over histories and over schedules of atomic steps (linearizability) + exhaustive history correspondence + forced-schedule correspondence + Go race detector runs")
 
 PROPS["C20"] = dict(level="proof", allowed_axioms=FLOCQ_AXIOMS, xtpl=True,
     rule="template sets of 1-3 files (one in a sub-directory, plus a non-matching file) whose directive values contain 1-3 ${} blocks with keyword calls: plain name, receiver.field, parenthesised callee, wrapped in other calls; literals in all three quoting styles with escapes and either attribute delimiter; repeated and distinct occurrences; too few arguments, non-literal, parenthesised and empty msgids; default and custom -keywords, default and custom -attr_prefix; single-line blocks without tabs; non-trivial = at least one keyword call; distinct = distinct case lines",
